@@ -60,3 +60,23 @@ void h_clear_reuse(void) {
   VASSERT(h.f0 == 1 && (int32_t)h.f8.e[0] == b && !(h.f2 & 1), "the document works normally after clear()");
   VWITNESS("any");
 }
+
+#ifndef EXTFAIL
+#define EXTFAIL 1
+#endif
+void h_ext_fail(void) {   /* doc.set(int64 outside the 32-bit range) with allocator call #EXTFAIL failing (the pool for the extension slot) */
+  int64_t v = (int64_t)vin_u64(); VASSUME(v > 2147483647LL || v < -2147483648LL);
+  struct S_Hist h; memset(&h, 0, sizeof h); w_ext_fail((uint64_t)v, EXTFAIL, &h);
+  if (EXTFAIL) { VASSERT(h.f5 == 0, "set() reports the failure"); VASSERT(h.f2 & 1, "overflowed() becomes true"); VASSERT(h.f8.e[0] == 1, "the value is left null, not half-written"); VWITNESS("failed"); }
+  else { VASSERT(h.f5 == 1 && !(h.f2 & 1) && h.f0 == 1 && h.f1 == 1, "stored and read back exactly"); VWITNESS("stored"); }
+}
+#ifndef PIDX
+#define PIDX 3
+#endif
+void h_readonly_proxy(void) {   /* [a]; nesting()/size()/isNull()/operator| on doc[PIDX] (missing) are read-only */
+  int32_t a = (int32_t)vin_u32(); struct S_Hist h; memset(&h, 0, sizeof h); w_readonly_proxy((uint32_t)a, PIDX, &h);
+  VASSERT(h.f0 == 1 && h.f1 == 1 && (int32_t)h.f8.e[0] == a, "reading a missing element leaves the array as it was");
+  VASSERT(h.f4 == h.f3, "read-only operations never call the allocator");
+  VASSERT(h.f8.e[7] == 0 && (h.f5 & 1) && (int32_t)h.f7 == -7, "a missing element has nesting 0, size 0, is null and yields the default");
+  VWITNESS("any");
+}
